@@ -409,6 +409,25 @@ def cmd_report():
             old = m["old"].replace("\n", " ").replace("|", "\\|")[:60]
             new = m["new"].replace("\n", " ").replace("|", "\\|")[:60]
             lines.append(f"| {i} | {m['file']}:{m['line']} `{m['function']}` | {m['op']}: `{old}` -> `{new}` | {nov} | {tri.get(i, '')} |")
+    # transform.py: its tests are skipped where numba is missing, so the suite cannot sort these; triaged by reading
+    mm = {m["id"]: m for m in ms}
+    rest = [i for i, r in ck.items() if not r["caught"] and i in mm and mm[i]["file"] == "xgcm/transform.py"]
+    if rest:
+        lines += ["", f"`xgcm/transform.py`: {len(rest)} mutants no check reports (the pinned suite skips the transform tests without numba; triaged by reading):", "",
+                  "| mutant | where | edit | checks without verdict | triage |", "|---|---|---|---|---|"]
+        for i in sorted(rest, key=lambda i: mm[i]["line"]):
+            m = mm[i]
+            nov = ",".join(sorted(ck[i]["noverdict"])) or "-"
+            old = m["old"].replace("\n", " ").replace("|", "\\|")[:60]
+            new = m["new"].replace("\n", " ").replace("|", "\\|")[:60]
+            lines.append(f"| {i} | {m['file']}:{m['line']} `{m['function']}` | {m['op']}: `{old}` -> `{new}` | {nov} | {tri.get(i, '')} |")
+    nov_only = [i for i, r in ck.items() if not r["caught"] and r["noverdict"] and i in mm and mm[i]["file"] != "xgcm/transform.py"]
+    if nov_only:
+        lines += ["", f"No verdict only ({len(nov_only)} outside transform.py): almost all are swapped arguments after which the analysed program itself would fail with a type error at a point the evaluator does not model (iterating a DataArray, a Grid used as an array ...); the checks say so (exit 2) instead of guessing.", ""]
+        for i in sorted(nov_only, key=lambda i: (mm[i]["file"], mm[i]["line"])):
+            m = mm[i]
+            k = sorted(ck[i]["noverdict"].items())[0]
+            lines.append(f"* {i} {m['file']}:{m['line']} `{m['function']}` {m['op']}: `{m['old'][:40].replace(chr(10), ' ')}` -> `{m['new'][:40].replace(chr(10), ' ')}` - {k[1][:140]}")
     (OUT / "RESULTS.md").write_text("\n".join(lines) + "\n")
     print("\n".join(lines[:40]))
 
